@@ -43,6 +43,9 @@ struct object_t
     // result of internal cancellation (kinks: sum|x-K| - offset == 0 between the kinks) carries rounding noise of
     // eps*|terms|, not eps*|f|; |f| at 0, +-1, (+1,-1,..) reveals the size of the constants involved
     double      value_floor{0.0};
+    // optional: magnitude of the arguments that enter f additively at x (losses: sum |prediction| + |target|; class-NLL
+    // with one output computes log(1+eps) - o + o): part of the "terms involved" of the rounding tolerances
+    std::function<double(const vec_t&)> terms;
 
     std::function<double(const vec_t&)>         value; // value-only call
     std::function<double(const vec_t&, vec_t&)> vgrad; // value + (sub)gradient call
@@ -129,11 +132,11 @@ inline vec_t unit(const vec_t& raw, size_t n)
 //   D(h) = (f(x+hd)-f(x-hd))/2h at h = 1e-4*max(1,|x|) and h/2,
 //   E_t = |D(h)-D(h/2)|, E_r = 50*eps*(|f(x+hd)|+|f(x-hd)|)/h,
 //   skip when E_t > 1e-3*(|D(h/2)|+1e-8), otherwise |g.d - D(h/2)| <= 2 E_t + E_r + 1e-7 |g.d|.
-// Addition (only ever removes alarms): a kink exactly AT x is symmetric for central differences
-// (|t| at 0: D(h) = D(h/2) = 0), so it is invisible to E_t.  It shows in the second difference
-// S(h) = (f(x+hd) - 2 f(x) + f(x-hd))/h = D+ - D-, which does not shrink with h at a kink but halves
-// with h where f is differentiable.  When S(h/2) > 0.75 S(h) and the returned g.d lies inside
-// [D-, D+] (up to the tolerance) the point is a kink and g a valid sub-gradient: skipped, counted.
+// Addition (only ever removes alarms, see the comments in check_derivative): a failure of the designed test is
+// confirmed at the step pairs (h/4, h/8), (h/16, h/32), (h/64, h/128); if the designed test passes or skips at any of
+// them the coarse stencil contained a kink (|a| < h/4 makes E_t arbitrarily small although D(h/2) is off by half the
+// jump) -> skipped and counted.  A kink exactly AT x is symmetric at every h (|t| at 0: D = 0): there g.d only has
+// to lie between the backward and the forward difference quotient of the finest step (valid sub-gradient).
 // ---------------------------------------------------------------------------------------
 struct deriv_result_t
 {
@@ -152,10 +155,21 @@ struct deriv_result_t
 
 inline deriv_result_t check_derivative(const object_t& o, const vec_t& x, double fx, const vec_t& gx, const vec_t& d)
 {
-    deriv_result_t r;
-    const auto     h1 = 1e-4 * std::max(1.0, norm(x));
-    const auto     h2 = 0.5 * h1;
+    const auto gd = dot(gx, d);
+    const auto h0 = 1e-4 * std::max(1.0, norm(x));
+    const auto fl = o.value_floor + (o.terms ? 2 * o.terms(x) : 0.0);
 
+    struct level_t
+    {
+        enum
+        {
+            ok,
+            skip,
+            fail,
+            nonfinite
+        } status{ok};
+        double D1{0}, D2{0}, Et{0}, Er{0}, err{0}, tol{0}, S2{0};
+    };
     vec_t      xp(o.n), xn(o.n);
     const auto eval = [&](double h, double& fp, double& fn)
     {
@@ -167,42 +181,79 @@ inline deriv_result_t check_derivative(const object_t& o, const vec_t& x, double
         fp = o.value(xp);
         fn = o.value(xn);
     };
-    double fp1 = 0, fn1 = 0, fp2 = 0, fn2 = 0;
-    eval(h1, fp1, fn1);
-    eval(h2, fp2, fn2);
-    if (!finite(fp1) || !finite(fn1) || !finite(fp2) || !finite(fn2))
+    // the designed rule at the pair of steps (h, h/2)
+    const auto level = [&](double h1)
     {
-        r.kind = deriv_result_t::nonfinite;
-        return r;
-    }
-    const auto D1 = (fp1 - fn1) / (2 * h1);
-    const auto D2 = (fp2 - fn2) / (2 * h2);
-    const auto Et = std::fabs(D1 - D2);
-    const auto Er = 50 * eps * (std::fabs(fp2) + std::fabs(fn2) + o.value_floor) / h1;
-    if (Et > 1e-3 * (std::fabs(D2) + 1e-8))
+        level_t    l;
+        const auto h2  = 0.5 * h1;
+        double     fp1 = 0, fn1 = 0, fp2 = 0, fn2 = 0;
+        eval(h1, fp1, fn1);
+        eval(h2, fp2, fn2);
+        if (!finite(fp1) || !finite(fn1) || !finite(fp2) || !finite(fn2))
+        {
+            l.status = level_t::nonfinite;
+            return l;
+        }
+        l.D1  = (fp1 - fn1) / (2 * h1);
+        l.D2  = (fp2 - fn2) / (2 * h2);
+        l.Et  = std::fabs(l.D1 - l.D2);
+        l.Er  = 50 * eps * (std::fabs(fp2) + std::fabs(fn2) + fl) / h1;
+        l.S2  = (fp2 - 2 * fx + fn2) / h2; // forward minus backward difference at h/2
+        l.err = std::fabs(gd - l.D2);
+        l.tol = 2 * l.Et + l.Er + 1e-7 * std::fabs(gd);
+        if (l.Et > 1e-3 * (std::fabs(l.D2) + 1e-8))
+        {
+            l.status = level_t::skip;
+        }
+        else if (l.err > l.tol)
+        {
+            l.status = level_t::fail;
+        }
+        return l;
+    };
+
+    deriv_result_t r;
+    const auto     l0 = level(h0);
+    r.ratio           = l0.err / std::max(l0.tol, 1e-300);
+    switch (l0.status)
     {
-        r.kind = deriv_result_t::skipped;
-        return r;
+    case level_t::nonfinite: r.kind = deriv_result_t::nonfinite; return r;
+    case level_t::skip: r.kind = deriv_result_t::skipped; return r;
+    case level_t::ok: return r;
+    default: break;
     }
-    const auto gd  = dot(gx, d);
-    const auto err = std::fabs(gd - D2);
-    const auto tol = 2 * Et + Er + 1e-7 * std::fabs(gd);
-    r.ratio        = err / std::max(tol, 1e-300);
-    if (err <= tol)
+    // The designed test fails.  Before this counts, the same test must fail at finer steps as well: kinks inside the
+    // coarse stencil can conspire so that D(h) ~ D(h/2) although both are off (one kink at |a| < h/4, or two kinks whose
+    // contributions cancel in E_t - both seen on the unchanged tree with the l1 term of the linear objective / lasso).
+    // A wrong gradient is wrong at every step size; a kink at distance a > 0 leaves the stencil once h < a.
+    double   best = r.ratio;
+    level_t  lf   = l0;
+    for (int k = 1; k <= 3; ++k)
     {
-        return r;
+        lf = level(h0 / std::pow(4.0, k));
+        if (lf.status == level_t::nonfinite)
+        {
+            r.kind = deriv_result_t::nonfinite;
+            return r;
+        }
+        if (lf.status != level_t::fail)
+        {
+            r.kind = deriv_result_t::skipped_at_kink; // differentiable at x, but not across the coarse stencil
+            return r;
+        }
+        best = std::min(best, lf.err / std::max(lf.tol, 1e-300));
     }
-    // kink exactly at x?
-    const auto S1 = (fp1 - 2 * fx + fn1) / h1;
-    const auto S2 = (fp2 - 2 * fx + fn2) / h2;
-    if (std::fabs(S2) > 0.75 * std::fabs(S1) && err <= 0.5 * std::fabs(S2) * (1 + 1e-6) + tol)
+    // fails at every scale: a kink exactly at x is symmetric for central differences at every h; there g only has to be a
+    // sub-gradient along d, i.e. g.d must lie between the backward and the forward difference quotient (finest step)
+    if (lf.err <= 0.5 * std::fabs(lf.S2) * (1 + 1e-6) + lf.tol)
     {
         r.kind = deriv_result_t::skipped_at_kink;
         return r;
     }
-    r.kind = err <= 10 * tol ? deriv_result_t::borderline : deriv_result_t::failed;
-    r.msg  = cat("n=", o.n, " |x|=", norm(x), " h=", h1, " g.d=", gd, " D(h)=", D1, " D(h/2)=", D2, " E_t=", Et,
-                 " E_r=", Er, " f(x)=", fx);
+    r.ratio = best;
+    r.kind  = best <= 10.0 ? deriv_result_t::borderline : deriv_result_t::failed;
+    r.msg   = cat("n=", o.n, " |x|=", norm(x), " h=", h0, " g.d=", gd, " D(h)=", l0.D1, " D(h/2)=", l0.D2, " E_t=", l0.Et, " E_r=", l0.Er,
+                  " f(x)=", fx, " finest: h=", h0 / 64, " D(h/2)=", lf.D2, " E_t=", lf.Et, " E_r=", lf.Er, " fwd-bwd=", lf.S2);
     return r;
 }
 
@@ -296,7 +347,7 @@ inline climb_result_t climb(const object_t& o, double mu, double radius, const s
             cursor += 2 * per_start;
             continue;
         }
-        auto pair = eval_pair(fx, gx, x, fz, z, o.value_floor);
+        auto pair = eval_pair(fx, gx, x, fz, z, o.value_floor + (o.terms ? o.terms(x) + o.terms(z) : 0.0));
         auto cur  = pair.excess(mu, o.curv_scale);
         if (!best.any || cur > best.best)
         {
@@ -345,7 +396,7 @@ inline climb_result_t climb(const object_t& o, double mu, double radius, const s
                 scale = std::max(scale * 0.7, 1e-6);
                 continue;
             }
-            const auto pair2 = eval_pair(fx2, g2, x2, fz2, z2, o.value_floor);
+            const auto pair2 = eval_pair(fx2, g2, x2, fz2, z2, o.value_floor + (o.terms ? o.terms(x2) + o.terms(z2) : 0.0));
             const auto cand  = pair2.excess(mu, o.curv_scale);
             if (cand > cur)
             {
@@ -404,9 +455,12 @@ inline rc::Gen<material_t> gen_material(size_t n, size_t nsteps, double rmin = 1
         gen::vec(n, 1.0), rc::gen::container<vec_t>(n, rc::gen::map(gen::range<int>(-4, 4), [](int k) { return k / 4.0; })),
         rc::gen::container<vec_t>(n, rc::gen::oneOf(rc::gen::just(0.0), gen::sym(1.0))));
     return rc::gen::map(
-        rc::gen::tuple(gen::logu(rmin, rmax), point, point, point, point, gen::vec(n, 1.0),
-                       rc::gen::container<vec_t>(n, rc::gen::oneOf(rc::gen::just(0.0), gen::sym(1.0))),
-                       gen::range<int>(0, static_cast<int>(n) - 1), gen::vec(2 * nsteps, 1.0)),
+        // the bulky material is not shrunk (hundreds of reals, each shrinking bit by bit, cost O(n^2) re-checks);
+        // rapidcheck still shrinks the structure around it (object, dimension, radius)
+        rc::gen::tuple(gen::logu(rmin, rmax), rc::gen::noShrink(point), rc::gen::noShrink(point), rc::gen::noShrink(point),
+                       rc::gen::noShrink(point), rc::gen::noShrink(gen::vec(n, 1.0)),
+                       rc::gen::noShrink(rc::gen::container<vec_t>(n, rc::gen::oneOf(rc::gen::just(0.0), gen::sym(1.0)))),
+                       gen::range<int>(0, static_cast<int>(n) - 1), rc::gen::noShrink(gen::vec(2 * nsteps, 1.0))),
         [](const std::tuple<double, vec_t, vec_t, vec_t, vec_t, vec_t, vec_t, int, vec_t>& t)
         {
             material_t m;
@@ -597,7 +651,7 @@ inline verdict_t check_object(object_t& o, const material_t& m, ctx_t& ctx, coun
                         vec_t      g(o.n, 0.0);
                         const auto fx = o.vgrad(c.x, g);
                         const auto fz = o.value(zt);
-                        const auto pt = eval_pair(fx, g, c.x, fz, zt, o.value_floor);
+                        const auto pt = eval_pair(fx, g, c.x, fz, zt, o.value_floor + (o.terms ? o.terms(c.x) + o.terms(zt) : 0.0));
                         const bool weight_ok = pt.finite && pt.excess(o.mu, o.curv_scale) <= 10.0;
                         bool       bias_moved = false;
                         for (long i = o.bias_begin; i < o.bias_end; ++i)
